@@ -29,10 +29,10 @@ Print Assumptions C17_width_zero_iff_eof.
 
 (* read: the current rune/width are DecodeRune of data[offset:], offsets count bytes *)
 Theorem C17_read : forall c s,
-  sp_rest (pt s) = skipn (offset (sp_pos (pt s))) (cData c) ->
+  sp_ok (cData c) (pt s) ->
   sp_ok (cData c) (pt (read c s)) /\
   offset (sp_pos (pt (read c s))) = offset (sp_pos (pt s)) + sp_w (pt s).
-Proof. intros c s H. split; [exact (read_sp_ok c s H) | exact (proj1 (proj2 (read_pt c s)))]. Qed.
+Proof. intros c s H. split; [exact (read_sp_ok c s (proj1 H) (sp_ok_width _ _ H)) | exact (proj1 (proj2 (read_pt c s)))]. Qed.
 Print Assumptions C17_read.
 
 (* advancing onto an invalid byte adds exactly one 'invalid encoding' error at its
